@@ -24,6 +24,9 @@ import (
 type Named struct {
 	Fields  []*Field
 	Reflect bool
+	// Unwritable is the first unexported field of a struct of another package whose type cannot be written
+	// outside of that package either: there is no spelling for the conversion that reads such a field.
+	Unwritable *Field
 }
 
 // Field describes a struct field.
@@ -78,10 +81,53 @@ func Fields(typesMap TypesMap, typ *types.Struct, external bool) *Named {
 		if f.Private() {
 			if external {
 				n.Reflect = true
+				if n.Unwritable == nil && mentionsUnexported(typesMap, fieldType) {
+					n.Unwritable = f
+				}
 			}
 		}
 	}
 	return n
+}
+
+// mentionsUnexported returns whether writing the type needs the name of an unexported type of another package.
+func mentionsUnexported(typesMap TypesMap, typ types.Type) bool {
+	switch t := types.Unalias(typ).(type) {
+	case *types.Named:
+		if !t.Obj().Exported() && t.Obj().Pkg() != nil && typesMap.IsExternal(t) {
+			return true
+		}
+		for i := 0; i < t.TypeArgs().Len(); i++ {
+			if mentionsUnexported(typesMap, t.TypeArgs().At(i)) {
+				return true
+			}
+		}
+	case *types.Pointer:
+		return mentionsUnexported(typesMap, t.Elem())
+	case *types.Slice:
+		return mentionsUnexported(typesMap, t.Elem())
+	case *types.Array:
+		return mentionsUnexported(typesMap, t.Elem())
+	case *types.Chan:
+		return mentionsUnexported(typesMap, t.Elem())
+	case *types.Map:
+		return mentionsUnexported(typesMap, t.Key()) || mentionsUnexported(typesMap, t.Elem())
+	case *types.Struct:
+		for i := 0; i < t.NumFields(); i++ {
+			if mentionsUnexported(typesMap, t.Field(i).Type()) {
+				return true
+			}
+		}
+	case *types.Signature:
+		return mentionsUnexported(typesMap, t.Params()) || mentionsUnexported(typesMap, t.Results())
+	case *types.Tuple:
+		for i := 0; i < t.Len(); i++ {
+			if mentionsUnexported(typesMap, t.At(i).Type()) {
+				return true
+			}
+		}
+	}
+	return false
 }
 
 func GetStructFields(s *types.Struct) []*types.Var {
